@@ -13,6 +13,7 @@ func init() {
 			"CH-MAP of the sample operations (what each operator of a chain computes), with the operand-side tracer following conversions, arithmetic and loop-carried values",
 			"PV-FRESH step buffers; PV-ROLE build constructs no expression node (no re-association or folding after parsing)",
 			"PV-ROLE LiteralBinOp always builds the literal iterator (no neutral-element short cut); the lexer hands on the scanned text itself",
+			"PV-PAIR scalar operand per sample; PV-ROLE build recursion one level at a time",
 		},
 		NotDecided: []string{"operand parsing (parseMetricExpr1 productions other than parentheses) – C05", "evaluation of the resulting tree – C12"},
 		Rules: func(r *Run) {
@@ -26,6 +27,8 @@ func init() {
 			ruleLiteralBinOpCtor(r)
 			ruleKeywordLookupExact(r)
 			ruleUnitEvaluators(r)
+			ruleLiteralOperandPerSample(r)
+			ruleBuildDescendsOneLevel(r)
 		},
 	})
 }
